@@ -66,12 +66,12 @@ extern int ds_membarrier_available;
 enum {
 	DSF_FUTEX_SLEEP = 48, DSF_FUTEX_WAKE_HIT = 49, DSF_DELAYED_STORE = 50, DSF_FORWARD = 51,
 	DSF_MEMBARRIER = 52, DSF_FAULT_HIT = 53, DSF_SIGNAL_RUN = 54, DSF_CAS_FAIL = 55,
-	DSF_MUTEX_BLOCK = 56, DSF_STALE_READ = 57, DSF_FORKED = 58, DSF_FROZEN = 59, DSF_GATE_PASSED = 60, DSF_SOLO_OP_DONE = 61, DSF_TIMESLICE = 62, DSF_SB_WINDOW = 63, DSF_STALLED = 47,
+	DSF_MUTEX_BLOCK = 56, DSF_STALE_READ = 57, DSF_FORKED = 58, DSF_FROZEN = 59, DSF_GATE_PASSED = 60, DSF_SOLO_OP_DONE = 61, DSF_TIMESLICE = 62, DSF_SB_WINDOW = 63, DSF_STALLED = 47, DSF_INPLACE_GROWTH = 46,
 };
 
 typedef void (*ds_scenario_fn)(void);
 void ds_register_scenario(const char *name, ds_scenario_fn fn);
 #define DS_SCENARIO(name, fn) \
-	static void __attribute__((constructor)) ds_reg_##fn(void) { ds_register_scenario(name, fn); }
+	static void __attribute__((constructor(101))) ds_reg_##fn(void) { ds_register_scenario(name, fn); }
 
 #endif
